@@ -11,6 +11,7 @@ VERIF_DIR = os.path.dirname(os.path.dirname(os.path.abspath(__file__)))
 REPO = os.path.abspath(os.environ.get("VERIF_REPO", "/repo"))
 SEED = int(os.environ.get("VERIF_SEED", "1") or "1")
 TIER = os.environ.get("VERIF_TIER", "quick") or "quick"
+OUT_DIR = os.path.abspath(os.environ.get("VERIF_OUT", VERIF_DIR))  # where evidence/ and replays/ are written
 NPROC = int(os.environ.get("VERIF_NPROC", "0") or "0") or min(16, os.cpu_count() or 1)
 
 _deps = os.path.join(VERIF_DIR, ".deps")
